@@ -91,8 +91,9 @@ if not a.no_file:
     os.makedirs(d, exist_ok=True)
     shutil.copy(patch, os.path.join(d, 'patch.diff'))
     shutil.copy(demo, os.path.join(d, 'demo.py'))
-    if os.path.exists(os.path.join(src, 'notes.md')):
-        shutil.copy(os.path.join(src, 'notes.md'), os.path.join(d, 'notes.md'))
+    for nf in ('notes.md', 'notes.txt'):
+        if os.path.exists(os.path.join(src, nf)):
+            shutil.copy(os.path.join(src, nf), os.path.join(d, nf))
     meta = dict(breaks_property=a.pid, needs_to_manifest=a.needs, confirmed=dict(tests_with_change=res['tests_with_change'], demo_with_change_exit=res['demo_with_change_exit'],
                 demo_without_change_exit=res['demo_without_change_exit']), ran=['pytest in a scratch worktree with the change', 'demo.py with and without the change',
                 './check <id> --tier %s on /repo with the patch applied, then git checkout -- .' % a.tier], checks=res['checks'], caught_by=caught)
